@@ -252,6 +252,25 @@ def harnesses():
     hs["tiny trivia+atomic: tight || loose, interpreter unoptimised"] = (trivia(TINY, "U", False, "a b"), ())
     hs["tiny trivia+atomic: tight || loose, generated"] = (trivia(TINY, "U", True, "a b"), ())
 
+    SK = 'r = { (!("a" | "b") ~ ANY)* ~ ("a" | "b") }\ns = @{ (!^"ab" ~ ANY)* ~ ^"ab" }\n'
+
+    def warmed(generated, first, second):
+        def mk():
+            from pest import Parser
+
+            p = Parser.from_grammar(SK)
+            obj = modes.Generated(p.generate()) if generated else p
+            modes.observe(obj, "r", "a")      # warmed up: nothing is initialised lazily under contention any more
+            modes.observe(obj, "s", "ab")
+            return [lambda: modes.observe(obj, first[0], first[1], detail=True), lambda: modes.observe(obj, second[0], second[1], detail=True)]
+        return mk
+
+    # the skip idiom with two stops on one shared, warmed-up optimised parser: whatever the search keeps on the expression object
+    # (an order of stops, a last hit) is shared by both threads
+    hs["skip idiom, two stops: r || r, warmed-up optimised interpreter"] = (warmed(False, ("r", "xb"), ("r", "b")), ())
+    hs["skip idiom, two stops: r || s, warmed-up optimised interpreter"] = (warmed(False, ("r", "xxa"), ("s", "xaB")), ())
+    hs["skip idiom, two stops: r || r, generated from optimised"] = (warmed(True, ("r", "xb"), ("r", "b")), ())
+
     def with_factory():
         p = make("U", "g1")
         r1, t1 = PROBES["g1"][1]
